@@ -515,6 +515,8 @@ def main(argv=None):
     ap.add_argument("--src-root", default=None)
     ap.add_argument("--jobs", type=int, default=int(os.environ.get("VERIF_JOBS", "16")))
     ap.add_argument("-v", action="store_true")
+    ap.add_argument("--record-baseline", action="store_true",
+                    help="write baseline/<prop>.<tier>.json (obligations discharged on this tree); run on the pinned tree only")
     args = ap.parse_args(argv)
     prop = args.prop
     if args.src_root:
@@ -552,6 +554,35 @@ def main(argv=None):
             outs = pool.map(solve_job, all_jobs, chunksize=max(1, min(8, len(all_jobs) // (4 * nproc) or 1)))
     else:
         outs = [solve_job(j) for j in all_jobs]
+    # obligations that were discharged on the pinned tree but came back undecided get a second,
+    # much longer attempt on a lightly loaded machine before anything is reported
+    from pyvc import report as _report
+    base = _report.load_baseline(prop, tier)
+    if base:
+        again = []
+        for k, (j, res) in enumerate(zip(all_jobs, outs)):
+            rs = res if isinstance(res, list) else [res]
+            und = [o for o in rs if o["verdict"] == "undecided" and _report.norm_name(o["name"]) in base]
+            if und:
+                tmax = max(base[_report.norm_name(o["name"])] for o in und)
+                j2 = dict(j)
+                j2["timeout"] = max(3 * j["timeout"], 10 * tmax)
+                again.append((k, j2))
+        again = again[:48]
+        if again:
+            with ctxm.Pool(min(4, len(again))) as pool:
+                outs2 = pool.map(solve_job, [j2 for _, j2 in again], chunksize=1)
+            for (k, _), res2 in zip(again, outs2):
+                old = outs[k] if isinstance(outs[k], list) else [outs[k]]
+                new = res2 if isinstance(res2, list) else [res2]
+                merged = []
+                for o, o2 in zip(old, new):
+                    if o["verdict"] == "undecided" and o2["verdict"] in ("proved", "refuted"):
+                        o2["retried"] = True
+                        merged.append(o2)
+                    else:
+                        merged.append(o)
+                outs[k] = merged if isinstance(outs[k], list) else merged[0]
     for j, res in zip(all_jobs, outs):
         for o in (res if isinstance(res, list) else [res]):
             if o["verdict"] == "crash":
@@ -567,7 +598,8 @@ def main(argv=None):
             bounded = mod.bounded(tier, seed)
         except Exception as e:
             bounded = {"status": "crash", "error": f"{type(e).__name__}: {e}", "trace": traceback.format_exc()[-2000:]}
-    return report.finish(prop, mod, recs, tier, seed, t0, replay, verbose=args.v, bounded=bounded)
+    return report.finish(prop, mod, recs, tier, seed, t0, replay, verbose=args.v, bounded=bounded,
+                         record_baseline=args.record_baseline and args.case is None and not args.src_root)
 
 
 if __name__ == "__main__":
